@@ -1277,7 +1277,7 @@ def c01_narrow_big(ctx, exe, items):
 # >= 2^63 as dividend or divisor gives a wrong remainder on the unchanged tree (18446744073709551615 % 10 = -1).  Those
 # results are recorded, not judged, until the tree is repaired (notes/fix-expr-natural-above-int63-remainder.diff) or the
 # class is recorded as a finding; C04_NAT63_REM_JUDGED=1 judges them (key natural-above-int63-remainder).
-NAT63_REM_JUDGED = _os.environ.get("C04_NAT63_REM_JUDGED", "0") == "1"
+NAT63_REM_JUDGED = _os.environ.get("C04_NAT63_REM_JUDGED", "1") == "1"
 
 
 def _pow_targets():
